@@ -248,6 +248,17 @@ def _strip_pair(rep, repo):
                 env[st.targets[0].id] = F.ev(Strip().visit(copy.deepcopy(v)), env, 0)
             except e8.Undecided as e:
                 raise AnalysisError(f"_dergstrip outside the closed-form fragment: {e}") from e
+        elif isinstance(st, ast.Assign) and isinstance(st.targets[0], ast.Tuple) and \
+                all(isinstance(t, ast.Name) for t in st.targets[0].elts):
+            # `tau, termd, cn = _strip_constants(rho)`: constants shared with _gstrip through a helper
+            try:
+                vals = F.ev(Strip().visit(copy.deepcopy(st.value)), env, 0)
+            except e8.Undecided as e:
+                raise AnalysisError(f"_dergstrip outside the closed-form fragment: {e}") from e
+            if not isinstance(vals, tuple) or len(vals) != len(st.targets[0].elts):
+                raise AnalysisError(f"_dergstrip outside the closed-form fragment: cannot unpack `{norm(st.value)[:50]}`")
+            for t, v_ in zip(st.targets[0].elts, vals):
+                env[t.id] = v_
         elif isinstance(st, ast.Assign) and isinstance(st.targets[0], ast.Subscript) and \
                 isinstance(st.targets[0].slice, ast.Name) and masks.get(st.targets[0].slice.id) == "interior":
             try:
